@@ -18,6 +18,9 @@ CFG = dict(
          "credential {valid, expired, user deactivated after issue, permission REVOKEd after issue, permission replaced by a "
          "GRANT of the next lower level after issue, ... of the next higher level after issue}, with authentication on; "
          "plus every RPC in maintenance mode (no credential / anonymous token per database) and with authentication off. "
+         "Plus, for every RPC that serves several requests on one stream (StreamExportTx): two requests on ONE open stream "
+         "with the credential invalidated in between (nothing / SetActiveUser(false) / ChangePermission REVOKE / GRANT of a "
+         "lower permission / CloseSession-Logout), oracle: the second request is refused. "
          "Each cell is ONE real gRPC call through the server's own interceptor chain over bufconn; recorded: refused "
          "(PermissionDenied/Unauthenticated or one of immudb's fixed refusal texts) vs. through, and which databases got a "
          "new transaction. CELL count is input_distribution['_cells_total'] (about 20 000, per outcome under 'cells .../...'); "
